@@ -9,6 +9,7 @@
 \*            expose, numerators over dP/dPi/dE; near = all were on the grid),
 \*            L = round(exp(logL) * scale), T[t][s] = round(posterior_t(s) * L),
 \*            SL[t] = round(siteLik_t * L * dE)  (*near = within 1e-6 relative)
+\*            D.a / D.b = first and second derivative w.r.t. a / b (see DerivOk)
 \* Each Exact event is one complete run of the design model on the event's
 \* model: the transcription runs to completion, the design invariants
 \* (algorithm = definition, chunks cover every site once, no overrun) are
@@ -18,9 +19,20 @@ EXTENDS HmmExact, TraceLib
 
 VARIABLE cfg         \* the scenario's Reset record
 
+Zeros == [t \in 1..cfg.len |-> [j \in 1..cfg.n |-> 0]]
+\* the emissions are c0 + a*ca + b*cb: derivative tables w.r.t. a are ca, w.r.t. b are cb, second derivatives vanish
 ModelOf(ev) == [n |-> cfg.n, len |-> cfg.len, P |-> ev.P, dP |-> ev.dP, Pi |-> ev.Pi, dPi |-> ev.dPi,
                 E |-> ev.E, dE |-> ev.dE, bps |-> ev.bps,
-                chunk |-> IF ev.chunk = 0 THEN cfg.len + 1 ELSE ev.chunk]
+                chunk |-> IF ev.chunk = 0 THEN cfg.len + 1 ELSE ev.chunk,
+                dEm |-> cfg.ca, d2Em |-> Zeros]
+WrtB(mm) == [mm EXCEPT !.dEm = cfg.cb]
+
+\* derivatives of -log L as the classes return them: d1 = -L'/L, d2 = -(L''/L - (L'/L)^2); the driver logs
+\* q1 = round(-d1 * L) and q2 = round((d1*d1 - d2) * L), which must be the path sums L' and L''
+DerivOk(d, mm) ==
+  /\ d.r = "ok" /\ d.n1 /\ d.n2
+  /\ d.q1 = D1LikDef(mm)
+  /\ d.q2 = D2LikDef(mm)
 
 \* the model is the one the current parameter values define
 FromParameters(ev, mm) ==
@@ -40,6 +52,7 @@ Observed(ev, mm, s, b) ==
   /\ ev.mem /\ ev.valueAgrees
   /\ ev.Lr = "ok" /\ ev.Lnear /\ ev.L = LikDef(mm)
   /\ ev.cls \in {"rescaled", "logsum"} => ev.Pr = "ok"
+  /\ ev.cls \in {"rescaled", "logsum"} => DerivOk(ev.D.a, mm) /\ DerivOk(ev.D.b, WrtB(mm))
   /\ \A t \in Sites(mm), j \in States(mm) : ThroughAlg(mm, s, b, t, j) = TD[t][j]   \* PosteriorIsDefinition
   /\ ev.Pr = "ok" =>
        /\ ev.Tnear /\ ev.SLnear /\ ev.rowsEq
@@ -65,7 +78,7 @@ TExact == /\ IsEvent("Exact")
           /\ UNCHANGED cfg
 
 Trivial == [n |-> 1, len |-> 1, P |-> << <<1>> >>, dP |-> 1, Pi |-> <<1>>, dPi |-> 1,
-            E |-> << <<1>> >>, dE |-> 1, bps |-> <<>>, chunk |-> 1]
+            E |-> << <<1>> >>, dE |-> 1, bps |-> <<>>, chunk |-> 1, dEm |-> << <<0>> >>, d2Em |-> << <<0>> >>]
 
 TraceInit == /\ m = Trivial /\ pc = "done"
              /\ st = RunFwd(Trivial, FwdInit(Trivial)) /\ bt = RunBwd(Trivial, BwdInit(Trivial))
